@@ -93,6 +93,16 @@ func c11Run(c *Ctx) {
 		if w := c.L("gen:w"); w.Chance(1, 4) {
 			o.Top64 |= 8 // the PRVW box itself carries a 64-bit size
 		}
+		if w := c.L("gen:w"); w.Chance(1, 10) {
+			o.LeadFree = 1 + w.Intn(40) // a box that is no ftyp box in front of everything
+		}
+		if w := c.L("gen:w"); l4 == nil && w.Chance(1, 4) {
+			// a GPS directory without entries: a Tiff header, a zero count and a zero link (14 bytes)
+			o.CMT[3] = []byte("II*\x00\x08\x00\x00\x00\x00\x00\x00\x00\x00\x00")
+			if big {
+				o.CMT[3] = []byte("MM\x00*\x00\x00\x00\x08\x00\x00\x00\x00\x00\x00")
+			}
+		}
 		if y := c.L("gen:y"); y.Chance(1, 4) {
 			o.CTBO = 1 + y.Intn(15) // five to seven CTBO records, count field up to three beyond them
 		}
@@ -117,6 +127,9 @@ func c11Run(c *Ctx) {
 			if t.Type == "uuid-prvw" && i >= 1 && i <= 8 {
 				canonicalOrder = true
 			}
+		}
+		if o.LeadFree > 0 {
+			canonicalOrder = false // (the entry points refuse a file that does not begin with ftyp)
 		}
 		for i := 0; i < 4; i++ {
 			if o.CMT[i] == nil {
@@ -278,6 +291,20 @@ func c11Run(c *Ctx) {
 			bmr.PreviewImageReader = func(rd io.Reader, h meta.PreviewHeader) error {
 				return prevA.Run(rd, fmt.Sprintf("size=%d w=%d h=%d", h.Size, h.Width, h.Height), int(h.Size))
 			}
+		}
+		if len(top) > 0 && top[0].Type == "lead" {
+			// the first box is no ftyp box: ReadFTYP says so, and has processed that box
+			err := bmr.ReadFTYP()
+			steps = append(steps, harness.CanonErr(err))
+			if err == nil {
+				fail("position", "lead", "ReadFTYP accepted a free box as the ftyp box")
+				return
+			}
+			if p := pos(); p != top[0].End {
+				fail("position", "after-lead", fmt.Sprintf("after ReadFTYP (%v) on a %d-byte free box the stream stands at %d, the next top-level box begins at %d", err, top[0].End, p, top[0].End))
+				return
+			}
+			top = top[1:]
 		}
 		err := bmr.ReadFTYP()
 		steps = append(steps, harness.CanonErr(err))
